@@ -11,12 +11,13 @@ use std::collections::HashMap;
 use uuid::Uuid;
 use vharness::libwallet::api_impl::{foreign, owner};
 use vharness::libwallet::verif_hooks::{tx as itx, updater};
-use vharness::libwallet::{BlockFees, Error, InitTxArgs, Slate, SlateState};
+use vharness::libwallet::{BlockFees, Error, InitTxArgs, IssueInvoiceTxArgs, Slate, SlateState};
 use vharness::prng::{seed_from_env, Prng};
 use vharness::scen::*;
 use vharness::*;
 
 struct Flight {
+	invoice: bool,
 	num: u64,
 	id: Uuid,
 	sender: usize,
@@ -33,6 +34,7 @@ struct Hist {
 	slate_nums: HashMap<Uuid, u64>,
 	steps: [Vec<Value>; 2],
 	profile: String,
+	mined: Vec<(u64, Transaction)>,
 }
 
 fn acct_name(a: u64) -> Option<&'static str> {
@@ -43,11 +45,23 @@ fn acct_name(a: u64) -> Option<&'static str> {
 	}
 }
 
+thread_local! {
+	static LAST_ERR: std::cell::RefCell<Option<String>> = std::cell::RefCell::new(None);
+}
 fn rc_of<T>(r: &Result<Result<T, Error>, String>) -> Vec<u64> {
 	match r {
-		Err(_) => vec![2],
-		Ok(Err(e)) => vec![1, err_class(e)],
-		Ok(Ok(_)) => vec![0],
+		Err(m) => {
+			LAST_ERR.with(|l| *l.borrow_mut() = Some(format!("panic: {}", m)));
+			vec![2]
+		}
+		Ok(Err(e)) => {
+			LAST_ERR.with(|l| *l.borrow_mut() = Some(format!("{:?}", e)));
+			vec![1, err_class(e)]
+		}
+		Ok(Ok(_)) => {
+			LAST_ERR.with(|l| *l.borrow_mut() = None);
+			vec![0]
+		}
 	}
 }
 
@@ -101,6 +115,12 @@ impl Hist {
 		v
 	}
 	fn record(&mut self, i: usize, op: Value, rc: Vec<u64>, extra: Value) {
+		let mut extra = extra;
+		if let Some(m) = LAST_ERR.with(|l| l.borrow_mut().take()) {
+			if rc != vec![0] {
+				extra["err"] = json!(m);
+			}
+		}
 		let mut snap = self.s.snapshot(i);
 		// replace slate uuids by their numbers
 		if let Some(txs) = snap["txs"].as_array_mut() {
@@ -170,6 +190,11 @@ impl Hist {
 				Ok(block) => self.s.node.process(block).is_ok(),
 				Err(_) => false,
 			};
+			if ok {
+				for t in &txs {
+					self.mined.push((prev.height + 1, t.clone()));
+				}
+			}
 			if !ok {
 				// invalid pool content (e.g. double spend): mine an empty block instead
 				let bf2 = BlockFees {
@@ -233,7 +258,7 @@ impl Hist {
 	fn init_send(&mut self, i: usize) {
 		let tip = self.s.node.height();
 		let active = self.active(i);
-		let src: Option<u64> = if self.p.chance(1, 4) {
+		let src: Option<u64> = if self.p.chance(2, 5) {
 			Some(self.p.below(2))
 		} else {
 			None
@@ -280,6 +305,7 @@ impl Hist {
 			let n = self.slate_num(sl.id);
 			num = json!(n);
 			self.flights.push(Flight {
+				invoice: false,
 				num: n,
 				id: sl.id,
 				sender: i,
@@ -300,6 +326,120 @@ impl Hist {
 			json!({}),
 		);
 	}
+	/// Invoice flow. In an invoice flight `sender` is the ISSUER (payee); s1 = the invoice,
+	/// s2 = the payer's Invoice2 reply, fin = the issuer's finalized slate.
+	fn issue_invoice(&mut self, i: usize) {
+		let tip = self.s.node.height();
+		let dest: Option<u64> = if self.p.chance(1, 4) { Some(self.p.below(2)) } else { None };
+		let amount = match self.p.below(6) {
+			0 => 1,
+			1 => self.p.range(1, 200_000_000_000),
+			_ => self.p.range(1_000_000, 40_000_000_000),
+		};
+		let args = IssueInvoiceTxArgs {
+			dest_acct_name: dest.and_then(acct_name).map(|s| s.to_owned()),
+			amount,
+			target_slate_version: None,
+		};
+		let r = guarded(|| self.s.with(i, |b, m| owner::issue_invoice_tx(b, m, args, false)));
+		let rc = rc_of(&r);
+		let mut num = json!(null);
+		if let Ok(Ok(sl)) = &r {
+			let n = self.slate_num(sl.id);
+			num = json!(n);
+			self.flights.push(Flight {
+				invoice: true,
+				num: n,
+				id: sl.id,
+				sender: i,
+				s1: sl.clone(),
+				s2: None,
+				fin: None,
+				posted: false,
+			});
+		}
+		self.record(
+			i,
+			json!({"k": "issue_invoice", "slate": num, "amount": amount.to_string(), "tip": tip, "dest": dest}),
+			rc,
+			json!({}),
+		);
+	}
+	fn process_invoice(&mut self, f: usize) {
+		let (issuer, s1, num) = {
+			let fl = &self.flights[f];
+			(fl.sender, fl.s1.clone(), fl.num)
+		};
+		let payer = if self.p.chance(1, 10) { issuer } else { 1 - issuer };
+		let tip = self.s.node.height();
+		let active = self.active(payer);
+		let src: Option<u64> = if self.p.chance(1, 3) { Some(self.p.below(2)) } else { None };
+		let parent = src.unwrap_or(active);
+		let mut s1 = s1;
+		if self.p.chance(1, 10) {
+			s1.ttl_cutoff_height = self.p.below(tip + 3);
+		}
+		let args = InitTxArgs {
+			src_acct_name: src.and_then(acct_name).map(|s| s.to_owned()),
+			amount: s1.amount,
+			minimum_confirmations: *self.p.pick(&[0u64, 1, 1, 1, 2]),
+			max_outputs: *self.p.pick(&[500u32, 500, 2]),
+			num_change_outputs: *self.p.pick(&[1u32, 1, 2, 3]),
+			selection_strategy_is_use_all: self.p.coin(),
+			ttl_blocks: if self.p.chance(1, 3) { Some(self.p.range(1, 4)) } else { None },
+			..Default::default()
+		};
+		let view = self.node_view(payer);
+		let a2 = args.clone();
+		let r = guarded(|| self.s.with(payer, |b, m| owner::process_invoice_tx(b, m, &s1, a2, false)));
+		let rc = rc_of(&r);
+		if let Ok(Ok(s2)) = &r {
+			self.flights[f].s2 = Some(s2.clone());
+		}
+		self.record(
+			payer,
+			json!({"k": "process_invoice", "slate": num, "ttl": s1.ttl_cutoff_height, "src": src, "parent": parent,
+				"view": view,
+				"p": {"amount": s1.amount.to_string(), "aif": false, "h": tip, "minconf": args.minimum_confirmations,
+					"max_outputs": args.max_outputs, "change_outputs": args.num_change_outputs,
+					"all": args.selection_strategy_is_use_all}}),
+			rc,
+			json!({}),
+		);
+	}
+	fn finalize_invoice(&mut self, f: usize) {
+		let (issuer, s2, num) = {
+			let fl = &self.flights[f];
+			(fl.sender, fl.s2.clone(), fl.num)
+		};
+		let s2 = match s2 {
+			Some(s) => s,
+			None => return,
+		};
+		let via_foreign = self.p.coin();
+		let r = guarded(|| {
+			self.s.with(issuer, |b, m| {
+				if via_foreign {
+					foreign::finalize_tx(b, m, &s2, false)
+				} else {
+					owner::finalize_tx(b, m, &s2)
+				}
+			})
+		});
+		let rc = rc_of(&r);
+		// (signature, kernel-sum and fee checks of slate.finalize are the "crypto verdict")
+		let crypto_ok = !(rc.len() == 2 && (rc[1] == 17 || rc[1] == 3));
+		if let Ok(Ok(fin)) = &r {
+			self.flights[f].fin = Some(fin.clone());
+		}
+		self.record(
+			issuer,
+			json!({"k": "finalize_invoice", "slate": num, "ttl": s2.ttl_cutoff_height, "crypto_ok": crypto_ok}),
+			rc,
+			json!({"foreign": via_foreign, "invoice": true}),
+		);
+	}
+
 	fn pick_flight(&mut self) -> Option<usize> {
 		if self.flights.is_empty() {
 			None
@@ -308,6 +448,9 @@ impl Hist {
 		}
 	}
 	fn receive(&mut self, f: usize) {
+		if self.flights[f].invoice {
+			return self.process_invoice(f);
+		}
 		let (sender, s1, num) = {
 			let fl = &self.flights[f];
 			(fl.sender, fl.s1.clone(), fl.num)
@@ -354,7 +497,8 @@ impl Hist {
 		let (sender, sl, num) = {
 			let fl = &self.flights[f];
 			(
-				fl.sender,
+				// in an invoice flight the payer (the other wallet) reserves
+				if fl.invoice { 1 - fl.sender } else { fl.sender },
 				fl.s2.clone().unwrap_or_else(|| fl.s1.clone()),
 				fl.num,
 			)
@@ -379,12 +523,15 @@ impl Hist {
 		let rc = rc_of(&r);
 		self.record(
 			who,
-			json!({"k": "lock", "slate": num, "ttl": sl.ttl_cutoff_height, "tip": tip}),
+			json!({"k": "lock", "slate": num, "ttl": sl.ttl_cutoff_height, "tip": tip, "has_tx": sl.tx.is_some()}),
 			rc,
 			json!({"ctx_inputs": ctx_inputs}),
 		);
 	}
 	fn finalize(&mut self, f: usize) {
+		if self.flights[f].invoice {
+			return self.finalize_invoice(f);
+		}
 		let (sender, s2, num) = {
 			let fl = &self.flights[f];
 			(fl.sender, fl.s2.clone(), fl.num)
@@ -523,6 +670,135 @@ impl Hist {
 		);
 	}
 
+	/// Directed reorg episode built from the primitive operations: complete a payment, confirm
+	/// it at the recipient, orphan it by a longer fork, look again (reverted), then either
+	/// re-mine it (re-confirmed) or leave it; with refreshes at the intermediate points.
+	fn reorg_episode(&mut self) {
+		let sender = self.p.below(2) as usize;
+		let before = self.flights.len();
+		self.init_send(sender);
+		if self.flights.len() == before {
+			return;
+		}
+		let f = self.flights.len() - 1;
+		// deliver to the other wallet (untampered), lock, finalize, post
+		let s1 = self.flights[f].s1.clone();
+		let num = self.flights[f].num;
+		let r_i = 1 - sender;
+		let r = guarded(|| self.s.with(r_i, |b, m| foreign::receive_tx(b, m, &s1, None, false)));
+		let rc = rc_of(&r);
+		if let Ok(Ok(s2)) = &r {
+			self.flights[f].s2 = Some(s2.clone());
+		}
+		self.record(
+			r_i,
+			json!({"k": "receive", "slate": num, "amount": s1.amount.to_string(), "ttl": s1.ttl_cutoff_height,
+				"dest": null, "crypto_ok": true}),
+			rc.clone(),
+			json!({"foreign": true, "reply_participants": if rc == vec![0] { 1 } else { -1 }, "tampered": false}),
+		);
+		if rc != vec![0] {
+			return;
+		}
+		self.lock(f);
+		self.finalize(f);
+		if self.flights[f].fin.is_none() {
+			return;
+		}
+		self.post(f);
+		let miner = self.p.below(2) as usize;
+		self.mine(miner, true);
+		if self.p.chance(3, 4) {
+			let all = self.p.coin();
+			self.refresh(r_i, all);
+		}
+		if self.p.coin() {
+			self.mine(miner, false);
+			self.refresh(r_i, true);
+		}
+		self.fork(miner);
+		let all = self.p.chance(2, 3);
+		self.refresh(r_i, all);
+		if self.p.coin() {
+			self.refresh(sender, true);
+		}
+		match self.p.below(3) {
+			0 => {
+				// the payment is mined again
+				self.flights[f].posted = false;
+				self.post(f);
+				self.mine(miner, true);
+				let all = self.p.coin();
+				self.refresh(r_i, all);
+			}
+			1 => {
+				self.fork(miner);
+				self.refresh(r_i, true);
+			}
+			_ => {}
+		}
+	}
+
+	/// Reorganisation: a branch forking `depth` blocks below the tip and `extra` blocks longer
+	/// replaces the tip; coinbases of the new branch go to wallet i; each orphaned
+	/// transaction is either put back into the pool (re-mined in the branch) or dropped.
+	fn fork(&mut self, i: usize) {
+		let tip = self.s.node.height();
+		if tip < 3 {
+			return;
+		}
+		let depth = self.p.range(1, 3.min(tip - 1));
+		let extra = self.p.range(1, 2);
+		let base = tip - depth;
+		let mut prev = self.s.node.chain.get_header_by_height(base).unwrap();
+		let orphaned: Vec<(u64, Transaction)> =
+			self.mined.iter().filter(|(h, _)| *h > base).cloned().collect();
+		self.mined.retain(|(h, _)| *h <= base);
+		let remine = self.p.coin();
+		let mut first_txs: Vec<Transaction> = if remine {
+			orphaned.iter().map(|(_, t)| t.clone()).collect()
+		} else {
+			vec![]
+		};
+		for n in 0..(depth + extra) {
+			let txs: Vec<Transaction> = if n == 0 { first_txs.drain(..).collect() } else { vec![] };
+			let mut built = None;
+			for attempt in 0..2 {
+				let use_txs: &[Transaction] = if attempt == 0 { &txs } else { &[] };
+				let fees: u64 = use_txs.iter().map(|t| t.fee()).sum();
+				let bf = BlockFees {
+					fees,
+					key_id: None,
+					height: prev.height + 1,
+				};
+				let cb = self
+					.s
+					.with(i, |b, m| foreign::build_coinbase(b, m, &bf, false))
+					.unwrap();
+				self.record(
+					i,
+					json!({"k": "coinbase", "fees": fees.to_string(), "height": bf.height, "key": null}),
+					vec![0],
+					json!({"foreign": true, "fork": true}),
+				);
+				if let Ok(b) = self.s.node.try_build_block(&prev, use_txs, (cb.output, cb.kernel)) {
+					let hdr = b.header.clone();
+					if self.s.node.process(b).is_ok() {
+						for t in use_txs {
+							self.mined.push((hdr.height, t.clone()));
+						}
+						built = Some(hdr);
+						break;
+					}
+				}
+			}
+			match built {
+				Some(h) => prev = h,
+				None => return,
+			}
+		}
+	}
+
 	/// owner::update_wallet_state (refresh + kernel lookups + incremental scan + TTL expiry);
 	/// not followed by the model (scan is outside it): used for the C17 expiry oracle only.
 	fn update_state(&mut self, i: usize) {
@@ -544,8 +820,11 @@ impl Hist {
 		let (w_init, w_cancel, w_cbkey) = match self.profile.as_str() {
 			"c05" => (12, 22, 1),
 			"c07" => (10, 6, 10),
+			"c18" => (12, 3, 0),
 			_ => (14, 8, 2),
 		};
+		let w_fork = if self.profile == "c18" { 6 } else { 0 };
+		let w_episode = if self.profile == "c18" { 8 } else { 0 };
 		let mut acc = 0;
 		let mut in_band = |w: u64| {
 			let lo = acc;
@@ -562,7 +841,11 @@ impl Hist {
 			let a = self.p.below(2);
 			self.set_active(i, a);
 		} else if in_band(w_init) {
-			self.init_send(i);
+			if self.p.chance(1, 4) {
+				self.issue_invoice(i);
+			} else {
+				self.init_send(i);
+			}
 		} else if in_band(14) {
 			if let Some(f) = self.pick_flight() {
 				self.receive(f);
@@ -583,6 +866,10 @@ impl Hist {
 			self.cancel(i);
 		} else if in_band(w_cbkey) {
 			self.coinbase_key(i);
+		} else if in_band(w_fork) {
+			self.fork(i);
+		} else if in_band(w_episode) {
+			self.reorg_episode();
 		} else if self.p.chance(1, 3) {
 			self.s.reopen(i);
 		}
@@ -618,14 +905,34 @@ fn main() {
 			slate_nums: HashMap::new(),
 			steps: [vec![], vec![]],
 			profile: profile.clone(),
+			mined: vec![],
 		};
-		// a funded start: a few blocks to each wallet (modelled as coinbase ops)
-		let warm = hist.p.range(3, 6);
-		for k in 0..warm {
-			hist.mine((k % 2) as usize, false);
+		// a funded start (modelled as coinbase ops): the same number of blocks to each wallet, in
+		// half of the histories also to the second account of each wallet (so that per-account
+		// log ids coincide across accounts)
+		let warm = hist.p.range(2, 4);
+		let both_accounts = hist.p.coin();
+		for a in 0..(if both_accounts { 2 } else { 1 }) {
+			for i in 0..2 {
+				if both_accounts {
+					hist.set_active(i, a);
+				}
+			}
+			for _ in 0..warm {
+				hist.mine(0, false);
+				hist.mine(1, false);
+			}
+			hist.mine(0, false);
+			hist.mine(0, false);
+			for i in 0..2 {
+				hist.refresh(i, false);
+			}
 		}
-		for i in 0..2 {
-			hist.refresh(i, false);
+		if both_accounts {
+			for i in 0..2 {
+				let a = hist.p.below(2);
+				hist.set_active(i, a);
+			}
 		}
 		for _ in 0..n_steps {
 			hist.step();
